@@ -22,6 +22,11 @@ def check(ctx, src):
     ctx.rule("STR-ROUTE", "prefixed, bracketed and f-string text all go through read_chars_until")
     rq = readerq.Reader(src)
     ps = rq.methods["prefixed_string"][1]
+    # Python's escape grammar is ASCII: the validation of the character after a backslash must not use a Unicode
+    # character-class predicate (str.isdigit etc. accept e.g. superscript and fullwidth digits)
+    uni = [c for c in ast.walk(ps) if isinstance(c, ast.Call) and isinstance(c.func, ast.Attribute) and c.func.attr in ("isdigit", "isdecimal", "isnumeric", "isalpha", "isalnum", "isspace", "isprintable", "isidentifier")]
+    ctx.decide("STR-ESCAPES", f"{HR}|prefixed_string|ascii table", not uni, f"the escape validation of prefixed_string uses a Unicode class predicate (`{norm(uni[0]) if uni else ''}`): characters outside Python's escape table are accepted",
+               HR, uni[0].lineno if uni else ps.lineno, witness='"\\²" is accepted and decoded differently from Python', detail="membership in literal tables only")
     qc = next((n for n in ast.walk(ps) if isinstance(n, ast.FunctionDef) and n.name == "quote_closing"), None)
     ctx.need(qc is not None, "quote_closing not found")
     chk = pyq.contains(qc, lambda n: isinstance(n, ast.If) and pyq.contains(n.body, lambda x: isinstance(x, ast.Raise) and "invalid escape sequence" in norm(x)) is not None)
